@@ -52,6 +52,9 @@ def op_exp(seval, args):
     evaluated = seval.eval_args(args)
     assert all(map(lambda x: isinstance(x, (int, float)), evaluated))
     assert len(evaluated) == 2
+    if isinstance(evaluated[0], int) and isinstance(evaluated[1], int) and evaluated[1] >= 0:
+        # exact integer power, math.pow goes through floats and is wrong beyond 2**53
+        return evaluated[0] ** evaluated[1]
     return int(math.pow(evaluated[0], evaluated[1]))
 
 
